@@ -1,7 +1,7 @@
 (* C10 -- At most one grog build runs in a workspace; stale locks are recovered.
    Only statements, each closed by [exact] of a lemma from Lock_proofs.v.
    Model: Lock.v (one event per file-system call of WorkspaceLocker.Lock/Unlock, any number of
-   processes, any pre-existing lock file, crashes anywhere). *)
+   processes, any pre-existing lock file, crashes anywhere, waiters interrupted at will). *)
 From Coq Require Import List.
 From Grog Require Import Lock Lock_proofs.
 Import ListNotations.
@@ -112,3 +112,63 @@ Theorem C10_stale_recovered_nonvacuous :
     exists s', run w2_init evs = Some s' /\ holds s' 0.
 Proof. exact stale_recovered_nonvacuous. Qed.
 Print Assumptions C10_stale_recovered_nonvacuous.
+
+(* ---- cancellation of a waiting contender ([Cancel p]: ctx.Done() wins the select of Lock,
+   workspace_locker.go:80-81; SIGINT/SIGTERM cancel the build's context) ---- *)
+
+(* An interrupted waiter changes nothing but itself: the step is enabled only at Waiting, the
+   lock path, every inode's content (and the ghost creator, and the inode counter) and every
+   other process's pc are unchanged, and the waiter is in GaveUp. *)
+Theorem C10_cancel_frame : forall s p s',
+  step s (Cancel p) = Some s' ->
+  pcs s p = Waiting /\
+  lock s' = lock s /\ (forall i, content s' i = content s i) /\
+  (forall i, creator s' i = creator s i) /\ next s' = next s /\
+  (forall q, q <> p -> pcs s' q = pcs s q) /\ pcs s' p = GaveUp.
+Proof. exact cancel_frame. Qed.
+Print Assumptions C10_cancel_frame.
+
+(* Mutual exclusion survives the cancellation: in any state of the guarded relation in which h
+   holds, after [Cancel w] the state is again in the guarded relation (so C10_mutex_partial applies
+   to it), h still holds, the path still names h's inode and that inode still contains h's PID;
+   and every further contender t, run ALONE from the top of its loop, is Waiting after its three
+   calls (create fails, read, probe) and -- however long it keeps running, h alive and not
+   unlocking -- never gets past Lock() and never disturbs h's file. *)
+Theorem C10_cancel_keeps_holder : forall s0 s h i w s1,
+  init s0 -> reachable_g s0 s -> pcs s h = Held i -> step s (Cancel w) = Some s1 ->
+  reachable_g s0 s1 /\ pcs s1 h = Held i /\ lock s1 = Some i /\ content s1 i = Some h /\
+  forall t, pcs s1 t = Idle ->
+    (exists s2, run s1 [TryCreate t; Read t; Probe t] = Some s2 /\ pcs s2 t = Waiting) /\
+    (forall evs s2, Forall (fun e => actor e = t /\ e <> Crash t) evs -> run s1 evs = Some s2 ->
+       ~ holds s2 t /\ pcs s2 h = Held i /\ lock s2 = Some i /\ content s2 i = Some h).
+Proof. exact cancel_keeps_holder. Qed.
+Print Assumptions C10_cancel_keeps_holder.
+
+(* A waiter can always give up, and then it never holds: [Cancel w] is enabled at Waiting, leads
+   to GaveUp, no event of w other than its exit is enabled there, and no schedule at all (of any
+   processes, guarded or not) brings w past Lock(). *)
+Theorem C10_waiter_can_give_up : forall s w,
+  pcs s w = Waiting ->
+  exists s1, step s (Cancel w) = Some s1 /\ pcs s1 w = GaveUp /\
+    (forall e, actor e = w -> e <> Crash w -> step s1 e = None) /\
+    (forall evs s2, run s1 evs = Some s2 -> ~ holds s2 w).
+Proof. exact waiter_can_give_up. Qed.
+Print Assumptions C10_waiter_can_give_up.
+
+(* The hypotheses above are satisfiable and the new event is live in the guarded relation
+   (schedule NC of Lock.v, lock file initially absent): after 5 events 0 holds, 1 waits, 2 has not
+   started; after [Cancel 1] and 2's three calls 0 still holds its file (inode 0, PID 0), 1 has
+   given up, 2 waits; after [Unlock 0; Wake 2; TryCreate 2; WritePid 2] 2 holds. *)
+Theorem C10_cancel_nonvacuous :
+  nc_sched = [TryCreate 0; WritePid 0; TryCreate 1; Read 1; Probe 1; Cancel 1;
+              TryCreate 2; Read 2; Probe 2; Unlock 0; Wake 2; TryCreate 2; WritePid 2] /\
+  init w1_init /\
+  (exists s, run_g w1_init (firstn 5 nc_sched) = Some s /\ reachable_g w1_init s /\
+     pcs s 0 = Held 0 /\ pcs s 1 = Waiting /\ pcs s 2 = Idle) /\
+  (exists s, run_g w1_init (firstn 9 nc_sched) = Some s /\ reachable_g w1_init s /\
+     pcs s 0 = Held 0 /\ pcs s 1 = GaveUp /\ pcs s 2 = Waiting /\
+     lock s = Some 0 /\ content s 0 = Some 0) /\
+  (exists s, run_g w1_init nc_sched = Some s /\ reachable_g w1_init s /\
+     holds s 2 /\ pcs s 1 = GaveUp /\ pcs s 0 = Done).
+Proof. exact cancel_nonvacuous. Qed.
+Print Assumptions C10_cancel_nonvacuous.
